@@ -150,12 +150,13 @@ Example absent_vlog_is_error :
   forall H, fst (read_value H 64 VMulti [] [w_vlog; []] (Some []) 2 (5 * 2 ^ 56 + 3) (H w_val)) = Err ECorruptedData.
 Proof. intros H. reflexivity. Qed.
 
-(* ---- (4) ExportTx: a value whose read ends in EOF (vOff moved beyond the end of the log) is
-   taken for "truncated": the export succeeds, flagged truncated, with the digest instead of the
-   value, although the committed value is still in the log ---- *)
-Theorem export_values_refuted :
+(* ---- (4) [fixed by commit 6fe0104] ExportTx used to take a value whose read ran past the end of
+   the log (vOff moved beyond it) for a truncated one and to export the digest instead; it is an
+   error now. What remains: a vOff whose vLogID byte is 0 is still answered io.EOF ("replicated
+   without its value") and exported as truncated ---- *)
+Example export_beyond_end_is_error :
   fst (export_values sha256 true 64 VSingle [] [w_vlog] None [w_entry [107; 49] 2 (w_voff + 100) w_hval] 0 false)
-    = Ok (true, [w_hval]) /\
+    = Err ECorruptedData /\
   fst (export_values sha256 true 64 VSingle [] [w_vlog] None [w_entry [107; 49] 2 w_voff w_hval] 0 false)
     = Ok (false, [w_val]).
 Proof. split; vm_compute; reflexivity. Qed.
@@ -184,10 +185,12 @@ Theorem corrupt_entry_value_refuted_any_hash :
     v <> [] -> exists v', fst (read_value H mvl mode txlog vlogs c 0 off (H v)) = Ok v' /\ v' <> v.
 Proof. intros H v mvl mode txlog vlogs c off NE. exists []. split; [reflexivity | congruence]. Qed.
 
-(* ExportTx takes an unreadable value (EOF) for a truncated one, whatever the digest is *)
-Theorem export_eof_as_truncated :
+(* ExportTx still takes a value reference without a value log (vLogID byte altered to 0, the value
+   itself intact in the log) for a value "replicated without its content": the export succeeds,
+   flagged truncated, with the digest in place of the value; whatever the digest is *)
+Theorem export_no_vlog_as_truncated :
   forall (H : bytes -> bytes) (hval : bytes),
-    fst (export_values H true 64 VSingle [] [w_vlog] None [w_entry [107; 49] 2 (w_voff + 100) hval] 0 false)
+    fst (export_values H true 64 VSingle [] [w_vlog] None [w_entry [107; 49] 2 3 hval] 0 false)
       = Ok (true, [hval]).
 Proof. intros H hval. reflexivity. Qed.
 
